@@ -10,6 +10,21 @@ def _graphs(nv, E):
     edges = np.array([[a - 1, b - 1] for a, b in sorted(E)], dtype=int).reshape(-1, 2)
     out = [("undirected", ms.UndirectedGraph.init_from_edges(edges, nv))]
     out.append(("directed", ms.DirectedGraph.init_from_edges(edges, nv)))
+    # a spanning tree of the vertices is also given as a Tree rooted at its first vertex (edges directed away from the root)
+    if len(edges) == nv - 1 and nv >= 2:
+        adj = {v: set() for v in range(nv)}
+        for a, b in edges:
+            adj[a].add(b)
+            adj[b].add(a)
+        seen, order, dedges = {0}, [0], []
+        for v in order:
+            for w in sorted(adj[v]):
+                if w not in seen:
+                    seen.add(w)
+                    order.append(w)
+                    dedges.append([v, w])
+        if len(seen) == nv:
+            out.append(("tree", ms.Tree.init_from_edges(np.array(dedges, dtype=int), nv, 0)))
     return out
 
 
